@@ -8,8 +8,10 @@ handed a value of an undeclared type by the dict-document protocols:
   * ``_ret_number`` (JSON, YAML) / ``integer_from_bytes`` (MessagePack): whether
     a float meant for an Integer member is converted / refused or passed on;
   * the ComplexModelBase branch of ``HierDictDocument._from_dict_value``:
-    whether a null member document goes to ``_doc_to_object`` (whose answer to
-    None is ``[]``) or is read as None.
+    whether a null member document (object or array) goes to ``_doc_to_object``
+    (whose answer to None is ``[]``) or is read as None;
+  * (decides no type, kept for the fidelity of the model) whether MessagePack's
+    ``integer_from_bytes`` refuses lists and maps.
 
 Each function must be, statement for statement, one of the two shapes known
 here (argument names normalised); anything else raises TranslateError.  The
@@ -68,23 +70,23 @@ RET_NUMBER_INT = _body(
     "    return int(value)\n"
     "return value\n")
 
+_MP_HEAD = ("if isinstance(value, (six.text_type, six.binary_type)):\n"
+            "    return super(MessagePackDocument, self).integer_from_bytes(cls, value)\n")
+_MP_NONNUM = "if isinstance(value, NON_NUMBER_TYPES):\n    raise ValidationError(value)\n"
+_MP_FLOAT = ("if isinstance(value, float):\n"
+             "    if not value.is_integer():\n        raise ValidationError(value)\n"
+             "    return int(value)\n")
+# (int_from_float, refuses_containers) -> body
 MP_INT = {
-    'false': _body(
-        "if isinstance(value, (six.text_type, six.binary_type)):\n"
-        "    return super(MessagePackDocument, self).integer_from_bytes(cls, value)\n"
-        "return value\n"),
-    'true': _body(
-        "if isinstance(value, (six.text_type, six.binary_type)):\n"
-        "    return super(MessagePackDocument, self).integer_from_bytes(cls, value)\n"
-        "if isinstance(value, float):\n"
-        "    if not value.is_integer():\n        raise ValidationError(value)\n"
-        "    return int(value)\n"
-        "return value\n"),
+    ('false', 'false'): _body(_MP_HEAD + "return value\n"),
+    ('true', 'false'): _body(_MP_HEAD + _MP_FLOAT + "return value\n"),
+    ('false', 'true'): _body(_MP_HEAD + _MP_NONNUM + "return value\n"),
+    ('true', 'true'): _body(_MP_HEAD + _MP_NONNUM + _MP_FLOAT + "return value\n"),
 }
 
 COMPLEX_BRANCH = {
     'false': _body("retval = self._doc_to_object(ctx, cls, inst, validator)\n"),
-    'true': _body("if inst is None and not issubclass(cls, Array):\n    retval = None\n"
+    'true': _body("if inst is None:\n    retval = None\n"
                   "else:\n    retval = self._doc_to_object(ctx, cls, inst, validator)\n"),
 }
 
@@ -137,11 +139,12 @@ def generate(repo):
         if mod == 'msgpack':
             if rn != RET_NUMBER_PLAIN:
                 raise TranslateError('msgpack._ret_number: body is not the recognised shape')
-            i = which(fn_body(find_function(tree, [clsname, 'integer_from_bytes']), ['self', 'cls', 'value']), MP_INT,
-                      'msgpack.integer_from_bytes')
+            i, c = which(fn_body(find_function(tree, [clsname, 'integer_from_bytes']), ['self', 'cls', 'value']), MP_INT,
+                         'msgpack.integer_from_bytes')
         else:
             i = which(rn, {'false': RET_NUMBER_PLAIN, 'true': RET_NUMBER_INT}, mod + '._ret_number')
-        flags[mod] = (b, i)
+            c = 'true'                      # _ret_number refuses NON_NUMBER_TYPES in both shapes
+        flags[mod] = (b, i, c)
     # hier.py
     path = os.path.join(repo, 'spyne/protocol/dictdoc/hier.py')
     tree = ast.parse(open(path).read())
@@ -157,11 +160,11 @@ def generate(repo):
         raise TranslateError('hier._doc_to_object does not start with "if doc is None: return []"')
     rows = []
     for mod, ctor in (('json', 'PJson'), ('yaml', 'PYaml'), ('msgpack', 'PMsgpack')):
-        rows.append('  | %s => mkleafcfg %s %s %s' % (ctor, flags[mod][0], flags[mod][1], nul))
+        rows.append('  | %s => mkleafcfg %s %s %s %s' % (ctor, flags[mod][0], flags[mod][1], nul, flags[mod][2]))
     text = ('(* generated by harness/translate/dictleaf.py from spyne/protocol/{json,yaml,msgpack}.py and '
             'spyne/protocol/dictdoc/hier.py -- do not edit *)\n'
             'From SpyneV Require Import C04.Guard C04.DictModel.\n\n'
             '(** per protocol: _ret_bool tests identity; floats meant for Integer members are converted or refused;\n'
-            '    a null ComplexModel member is read as None *)\n'
+            '    a null ComplexModel / Array member is read as None; lists and maps are refused for Integer members *)\n'
             'Definition dict_leaf (p : proto) : leaf_cfg :=\n  match p with\n%s\n  end.\n' % '\n'.join(rows))
     return {'DictLeaf.v': text}
